@@ -54,3 +54,64 @@ def step (st : St) (op impl : List String) : St × Option String :=
       some s!"[C16] the same operations started from a TSN base next to 2^32 behave differently (step {st.idx}): reference `{want.getD "<end>"}` shifted `{line}`")
 
 end ShiftSpec
+
+/-! ### receiver harness (`ar …`): the same normalisation for its tokens -/
+namespace ShiftSpec
+
+def arChunkTok (base : Nat) (c : String) : String :=
+  match c.splitOn ":" with
+  | ["SACK", cum, arw, gaps, dups] =>
+    let d := if dups == "-" then dups else ",".intercalate ((dups.splitOn ",").map (rel base))
+    ":".intercalate ["SACK", rel base cum, arw, gaps, d]
+  | ["SHUTDOWN", cum] => "SHUTDOWN:" ++ rel base cum
+  | "DATA" :: tsn :: rest => ":".intercalate ("DATA" :: rel base tsn :: rest)
+  | "IDATA" :: tsn :: rest => ":".intercalate ("IDATA" :: rel base tsn :: rest)
+  | "FWD" :: tsn :: rest => ":".intercalate ("FWD" :: rel base tsn :: rest)
+  | "IFWD" :: tsn :: rest => ":".intercalate ("IFWD" :: rel base tsn :: rest)
+  | _ => c
+
+def arImplTok (base : Nat) (t : String) : String :=
+  if t.startsWith "cum=" then "cum=" ++ rel base (t.drop 4).toString
+  else "&".intercalate ((t.splitOn "&").map (arChunkTok base))
+
+/-- TSN-carrying positions of the chunk specs inside `data …`, `fwd …`, `ifwd …`, `reset …`, `pkt … | …` -/
+def arOpToks (base : Nat) : List String → List String
+  | "data" :: tsn :: rest => "data" :: rel base tsn :: arOpToks base rest
+  | "fwd" :: c :: rest => "fwd" :: rel base c :: arOpToks base rest
+  | "ifwd" :: c :: rest => "ifwd" :: rel base c :: arOpToks base rest
+  | "reset" :: rsn :: last :: rest => "reset" :: rsn :: rel base last :: arOpToks base rest
+  | t :: rest => t :: arOpToks base rest
+  | [] => []
+
+def arNormLine (base : Nat) (op impl : List String) : String :=
+  -- responses to several deferred resets completing at once leave in Go map order: packets compared as a multiset
+  let impl := match op, impl with
+    | ["gather"], ok :: pks => ok :: (pks.toArray.qsort (· < ·)).toList
+    | _, _ => impl
+  let op' := match op with
+    | "new" :: rcv :: il :: _tsn :: rest => "new" :: rcv :: il :: rest.dropLast
+    | _ => arOpToks base op
+  " ".intercalate op' ++ " -> " ++ " ".intercalate (impl.map (arImplTok base))
+
+/-- feed one `ar` line. Raw packets carry absolute TSNs inside their bytes (and bit flips of them are not
+shifts): the comparison of a pair stops at the first `raw` op. -/
+def arStep (st : St) (op impl : List String) : St × Option String :=
+  let st : St := match op with
+    | "new" :: _ :: _ :: tsn :: rest =>
+      let pair := (rest.getLast?.getD "0").toNat?.getD 0
+      ({ base := tsn.toNat?.getD 0, pair := pair, ref := if pair == 0 then #[] else st.ref, idx := 0, reported := false } : St)
+    | _ => st
+  let isRaw := op.head? == some "raw"
+  -- a HEARTBEAT-ACK with a literal (absolute) timestamp measures against the clock of the run, and the smoothed
+  -- estimate remembers it: round-trip values are not compared across the pair (P_C19 judges them)
+  let isHb := op.head? == some "hback"
+  let line := if isRaw then "raw" else if isHb then " ".intercalate op else arNormLine st.base op impl
+  if st.pair == 0 then ({ st with ref := st.ref.push line }, none)
+  else
+    let want := st.ref[st.idx]?
+    let st' := { st with idx := st.idx + 1, reported := st.reported || isRaw }
+    if st.reported || isRaw || want == some line then (st', none)
+    else ({ st' with reported := true },
+      some s!"[C16] the same packets delivered from a peer TSN base next to 2^32 are handled differently (step {st.idx}): reference `{want.getD "<end>"}` shifted `{line}`")
+
+end ShiftSpec
